@@ -155,6 +155,20 @@ Generic2 ==      \* only the contract is generic, and only in its exec messages
                   [id |-> "own", methods |-> << Sh(NameInstantiate, "instantiate", "ok"), Gm(<<"x">>, "exec", GSig2),
                                                 Sh(<<"y">>, "query", "err"), Gm(<<"z">>, "sudo", GSig) >>] >>]
 
+(* a program whose handler arguments carry a forwarded `serde(default)` (plain, and wrapped in a conditional attribute):
+   the attribute must take effect on the message field -- the argument may be left out on the wire (C17) *)
+DefaultTypes == {"DfltU32", "DfltU32W"}
+Dm(name, kind, sig) == [Sh(name, kind, "ok") EXCEPT !.args = sig]
+Defaults1 ==
+    [id |-> "A1", family |-> "shared", overrides |-> {},
+     parts |-> << [id |-> "i1", methods |-> << Dm(NameFoo, "exec", << [n |-> "a", t |-> "DfltU32W"], [n |-> "b", t |-> "String"] >>),
+                                               Dm(NameBar, "query", << [n |-> "q", t |-> "DfltU32"] >>) >>],
+                  [id |-> "own", methods |-> << Dm(NameInstantiate, "instantiate", << [n |-> "v", t |-> "DfltU32"] >>),
+                                                Dm(<<"x">>, "exec", << [n |-> "x", t |-> "u32"], [n |-> "y", t |-> "DfltU32"] >>),
+                                                Dm(<<"y">>, "query", << [n |-> "q", t |-> "DfltU32W"] >>),
+                                                Dm(<<"z">>, "sudo", << [n |-> "s", t |-> "DfltU32"], [n |-> "t", t |-> "DfltU32W"] >>),
+                                                Dm(NameMigrate, "migrate", << [n |-> "v", t |-> "DfltU32W"], [n |-> "w", t |-> "u32"] >>) >>] >>]
+
 (* programs that override entry points (C06, C04): one handler of every kind, some kinds served by the user's own functions *)
 OvProg(id, ov) ==
     [id |-> id, family |-> "override", overrides |-> ov,
@@ -201,7 +215,7 @@ PermTwin(p) ==
 RawSeq ==      \* all programs of this instance, as a sequence
        [gi \in 1..Len(Groups) |-> CorpusProg(gi)]
     \o [i \in 1..Len(SmallFs) |-> SmallProgOf(SmallFs[i], "m" \o ToString(i))]
-    \o <<Shared1, Shared2, Wide1, Generic1, Generic2, PermTwin(Shared1), PermTwin(CorpusProg(1))>> \o OverrideProgs \o CollideProgs
+    \o <<Shared1, Shared2, Wide1, Defaults1, Generic1, Generic2, PermTwin(Shared1), PermTwin(CorpusProg(1))>> \o OverrideProgs \o CollideProgs
 
 (* the table of elaborated programs: the static semantics applied once per program *)
 ElabSeq == TLCEval([i \in 1..Len(RawSeq) |-> Elab(RawSeq[i])])
@@ -212,10 +226,10 @@ CompiledIds == {i \in 1..Len(RawSeq) : RawSeq[i].family \in {"corpus", "shared",
 KeyUniverse(q) == EWireUniverse(q) \cup EArgUniverse(q) \cup {"zz_unknown"}
 DocsFor(q) ==
   UNION {
-       {[shape |-> "obj1", key |-> k, body |-> b, path |-> pa] : k \in KeyUniverse(q), b \in {"exact", "missing", "wrongtype", "extra", "notobj"}}
+       {[shape |-> "obj1", key |-> k, body |-> b, path |-> pa] : k \in KeyUniverse(q), b \in {"exact", "missing", "wrongtype", "extra", "notobj", "dropdefault"}}
   \cup {[shape |-> s, key |-> k, body |-> "exact", path |-> pa] : s \in {"obj2", "dup"}, k \in EWireUniverse(q)}
   \cup {[shape |-> "obj0", key |-> "", body |-> "none", path |-> pa], [shape |-> "nonobj", key |-> "", body |-> "none", path |-> pa]}
-  \cup {[shape |-> "flat", key |-> k, body |-> "exact", path |-> pa] : k \in {"instantiate", "migrate"}}
+  \cup {[shape |-> "flat", key |-> k, body |-> b, path |-> pa] : k \in {"instantiate", "migrate"}, b \in {"exact", "dropdefault"}}
   : pa \in (IF q.family = "small" THEN {"ep"} ELSE {"ep", "mt"}) }
 DocTable == TLCEval([id \in DOMAIN ProgTable |-> DocsFor(ProgTable[id])])
 
@@ -271,6 +285,11 @@ StimSet(q) ==
     \* malformed bodies for about every third handler (chosen by name, not by position), at its own entry point
   \cup {St(M(q, x).kind, "obj1", M(q, x).wire, b, q.parts[x[1]].id, M(q, x).name, 0) :
            x \in {y \in EnumMs(q) : Mod(M(q, y).h, 3) = 1}, b \in {"missing", "wrongtype", "extra", "notobj"}}
+    \* the arguments carrying a default left out, at the handler's own entry point (C17)
+  \cup {St(M(q, x).kind, "obj1", M(q, x).wire, "dropdefault", q.parts[x[1]].id, M(q, x).name, 0) :
+           x \in {y \in EnumMs(q) : \E i \in 1..Len(M(q, y).args) : M(q, y).args[i].t \in DefaultTypes}}
+  \cup {St(M(q, x).kind, "flat", M(q, x).kind, "dropdefault", q.parts[x[1]].id, M(q, x).name, 0) :
+           x \in {y \in StructMs(q) : M(q, y).kind \in Eps(q) /\ \E i \in 1..Len(M(q, y).args) : M(q, y).args[i].t \in DefaultTypes}}
     \* the other spelling of the name (convert_case's snake case of the variant), where it differs
   \cup {St(M(q, x).kind, "obj1", M(q, x).near, "exact", q.parts[x[1]].id, M(q, x).name, 0) :
            x \in {y \in EnumMs(q) : M(q, y).near # M(q, y).wire}}
